@@ -456,22 +456,32 @@ fn linear_units<'a>(civ: &'a Civil, lt: &'a crate::refmodel::lunar::LunTable) ->
     sym(&[1, 11, 12, 13, 25, 60]),
   ));
   // fortunes: ordinal = index of the decade / yearly fortune of a fixed child limit
-  for (bi, birth) in [(1989isize, 12usize, 31usize, 23usize, true), (2024, 3, 3, 12, false), (1583, 1, 1, 0, true)].into_iter().enumerate() {
+  for (bi, birth) in [(1989isize, 12usize, 31usize, 23usize, true), (2024, 3, 3, 12, false), (1583, 1, 1, 0, true), (2022, 3, 4, 12, true)].into_iter().enumerate() {
     let mk_cl = move || tyme4rs::tyme::eightchar::ChildLimit::from_solar_time(SolarTime::from_ymd_hms(birth.0, birth.1, birth.2, birth.3, 7, 17), if birth.4 { tyme4rs::tyme::enums::Gender::MAN } else { tyme4rs::tyme::enums::Gender::WOMAN });
     v.push((
       Lin {
-        unit: ["DecadeFortune#0", "DecadeFortune#1", "DecadeFortune#2"][bi],
+        unit: ["DecadeFortune#0", "DecadeFortune#1", "DecadeFortune#2", "DecadeFortune#3 (limit ends in the birth year)"][bi],
         lo: -30,
         hi: 60,
         fmt: Box::new(|o| format!("index {}", o)),
-        step: Box::new(move |o, a, b| Some(tyme4rs::tyme::eightchar::DecadeFortune::from_child_limit(mk_cl(), o as isize).next(a as isize).next(b as isize).get_index() as i64)),
+        step: Box::new(move |o, a, b| {
+          // the stepped decade must be the decade built directly at that index (pillar, ages, years) and its first yearly
+          // fortune must be the yearly fortune 10 x index
+          let x = tyme4rs::tyme::eightchar::DecadeFortune::from_child_limit(mk_cl(), o as isize).next(a as isize).next(b as isize);
+          let d = tyme4rs::tyme::eightchar::DecadeFortune::from_child_limit(mk_cl(), x.get_index());
+          let f = x.get_start_fortune();
+          if x.get_sixty_cycle().get_name() != d.get_sixty_cycle().get_name() || x.get_start_age() != d.get_start_age() || x.get_start_sixty_cycle_year().get_year() != d.get_start_sixty_cycle_year().get_year() || f.get_index() != 10 * x.get_index() || f.get_age() != x.get_start_age() {
+            return None;
+          }
+          Some(x.get_index() as i64)
+        }),
       },
       (-5..=12).collect(),
       sym(&[1, 2, 7, 13]),
     ));
     v.push((
       Lin {
-        unit: ["Fortune#0", "Fortune#1", "Fortune#2"][bi],
+        unit: ["Fortune#0", "Fortune#1", "Fortune#2", "Fortune#3 (limit ends in the birth year)"][bi],
         lo: -30,
         hi: 120,
         fmt: Box::new(|o| format!("index {}", o)),
